@@ -436,9 +436,12 @@ class Real:
 
     def digest(self):
         cs = '|'.join('%d,%d,%d,%d,%d,%d,%d,%d,%d,%d,%d' % (c.valid, c.added, c.started, int(c.pending), c.id, len(c.variables), len(c.default_fetch_as),
-                                                           c.err_no, c.cf is not None, c.useV2, len(c.data_received_cb.callbacks) - 1) for c in self.confs)
+                                                           c.err_no, c.cf is not None, c.useV2,
+                                                           sum(isinstance(getattr(cb, '__self__', None), self.SLm.SyncLogger) for cb in c.data_received_cb.callbacks)) for c in self.confs)
         ss = '|'.join('%d,%d' % (s._is_connected, s._queue.qsize()) for s in self.sls)
-        disc = ','.join(str(self.sls.index(cb.__self__)) for cb in self.cf.disconnected.callbacks)
+        # only the callbacks the property talks about: the SyncLoggers' (by owner type; TocFetcher etc. also listen to `disconnected`)
+        owners = [getattr(cb, '__self__', None) for cb in self.cf.disconnected.callbacks]
+        disc = ','.join(str(i) for o in owners if isinstance(o, self.SLm.SyncLogger) for i, x in enumerate(self.sls) if x is o)
         return 'c=%s b=%s sl=%s disc=%s link=%d toc=%d' % (cs or '-', ','.join(str(self.hof(b)) for b in self.log.log_blocks) or '-', ss or '-',
                                                           disc or '-', self.cf.link is not None, self.log.toc is not None)
 
